@@ -389,3 +389,61 @@ def check_wrapper_parsers(chk, F, R):
             chk.obligation(R, not v, "%s|%s" % (k, form), "%d text(s); first: %s" % (len(v), v[0] if v else ""),
                            where="src/descriptor", detail=v[:8])
     chk.floor(R, "parses", n, 1000)
+
+
+# ---- the named constructors (C16) ------------------------------------------------------------------------------------------------
+
+def check_named_constructors(chk, F, R):
+    from .. import model
+    chk.rule(R, "the named descriptor constructors build the descriptor their name says: Descriptor::new_pk / new_pkh / "
+                "new_wpkh / new_sh_wpkh / new_sh / new_wsh / new_sh_wsh / new_bare / new_sh_with_wpkh / new_sh_with_wsh / "
+                "new_sh_sortedmulti / new_wsh_sortedmulti / new_sh_wsh_sortedmulti / new_tr (and the Sh / Wsh constructors "
+                "behind them) give a value that prints as the expected text - sortedmulti stays sortedmulti, keys keep their "
+                "listed order, every wrapper is present - and equals what Descriptor::from_str gives for that text")
+    H = Harness(F)
+    m = H.m
+    D = "descriptor::Descriptor::<Pk>::"
+    names = ["new_pk", "new_pkh", "new_wpkh", "new_sh_wpkh", "new_sh", "new_wsh", "new_sh_wsh", "new_bare", "new_sh_with_wpkh",
+             "new_sh_with_wsh", "new_sh_sortedmulti", "new_wsh_sortedmulti", "new_sh_wsh_sortedmulti", "new_tr"]
+    fns = {}
+    for nm in names:
+        ps = [q for q in F.fns if q.endswith(D + nm) and q in F.bodies]
+        if len(ps) != 1:
+            chk.fail(R, "anchor|" + nm, "Descriptor::%s not found" % nm, kind="unanalysable")
+            return
+        fns[nm] = ps[0]
+    chk.saw(*fns.values())
+    try:
+        eq = impl_fn(F, "std::cmp::PartialEq", "eq")
+        wsh_ms = B.deref(B.deref(H.parse("wsh(and_v(v:pk(A),pk(B)))").fields["0"]).fields["ms"])
+        sh_inner = B.deref(B.deref(H.parse("sh(and_v(v:pk(A),pk(B)))").fields["0"]).fields["inner"])
+        sh_ms = B.deref(sh_inner.fields["0"])
+        bare_ms = B.deref(B.deref(H.parse("pk(A)").fields["0"]).fields["ms"])
+        wpkh = B.deref(H.parse("wpkh(K)").fields["0"])
+        wsh = B.deref(H.parse("wsh(and_v(v:pk(A),pk(B)))").fields["0"])
+        th = lambda: model.threshold(2, ["C", "A", "B"])      # noqa: E731
+        cases = [("new_pk", ["K"], "pk(K)"), ("new_pkh", ["K"], "pkh(K)"), ("new_wpkh", ["K"], "wpkh(K)"), ("new_sh_wpkh", ["K"], "sh(wpkh(K))"),
+                 ("new_sh", [sh_ms], "sh(and_v(v:pk(A),pk(B)))"), ("new_wsh", [wsh_ms], "wsh(and_v(v:pk(A),pk(B)))"),
+                 ("new_sh_wsh", [dcopy(wsh_ms)], "sh(wsh(and_v(v:pk(A),pk(B))))"), ("new_bare", [bare_ms], "pk(A)"),
+                 ("new_sh_with_wpkh", [wpkh], "sh(wpkh(K))"), ("new_sh_with_wsh", [wsh], "sh(wsh(and_v(v:pk(A),pk(B))))"),
+                 ("new_sh_sortedmulti", [th()], "sh(sortedmulti(2,C,A,B))"), ("new_wsh_sortedmulti", [th()], "wsh(sortedmulti(2,C,A,B))"),
+                 ("new_sh_wsh_sortedmulti", [th()], "sh(wsh(sortedmulti(2,C,A,B)))"), ("new_tr", ["K", Adt("std::option::Option", "None", {})], "tr(K)")]
+        n = 0
+        for nm, args, want in cases:
+            r = m.call_callee({"def": fns[nm], "resolved": fns[nm], "name": nm, "targs": [c10.STRING]}, list(args))
+            n += 1
+            d = r.fields["0"] if isinstance(r, Adt) and r.path.endswith("Result") else r
+            if isinstance(r, Adt) and r.path.endswith("Result") and r.variant != "Ok":
+                chk.fail(R, nm, "Descriptor::%s refuses a valid argument: %s" % (nm, repr(r)[:120]), where="src/descriptor/mod.rs")
+                continue
+            got = H.text(d)
+            same = got == want and bool(m.call_path(eq, [d, H.parse(want)]))
+            chk.obligation(R, same, nm, "Descriptor::%s gives %s, expected %s (and == the parsed text)" % (nm, got, want),
+                           where="src/descriptor/mod.rs")
+        chk.floor(R, "constructors", n, 14)
+    except (ValueError, KeyError) as e:
+        chk.fail(R, "unanalysable", "unanalysable: %s" % e, kind="unanalysable")
+    except Unsupported as e:
+        chk.fail(R, "unanalysable", "unanalysable: %s" % e, where=e.where, kind="unanalysable")
+    except Panic as e:
+        chk.fail(R, "panic", "panic: %s" % e, where="src/descriptor/mod.rs")
